@@ -100,6 +100,11 @@ class Report:
             return f"{PKG}/{_rel(where)}:{getattr(node, 'lineno', 0)}"
         return str(where)
 
+    def has_fresh_violation(self) -> bool:
+        known, _ = load_known()
+        ks = {(k["property"], k["key"]) for k in known}
+        return any(o.verdict == "violation" and (self.prop, o.key) not in ks for o in self.obl)
+
     # ------------------------------------------------------------ finishing
     def finish(self, selftest: Optional[dict] = None) -> int:
         known, fixed = load_known()
